@@ -76,11 +76,12 @@ def _abandon_worker(d, chunk, extra):
         for sname, n in n_by_input.items():
             for k in range(0, n + 3):
                 cmds = abandon_cmds(q, k, sname)
-                d.batch(cmds)                      # first repetition warms caches
-                rs = d.batch(cmds)
+                warm = d.batch(cmds)               # first repetition warms caches
+                crash = next((r for r in warm if r.crash), None)
+                rs = warm if crash else d.batch(cmds)
                 out["cases"] += 1
                 out["steps"] += len(cmds)
-                crash = next((r for r in rs if r.crash), None)
+                crash = crash or next((r for r in rs if r.crash), None)
                 if crash:
                     out["bad"].append(("abandon:%s|%s|%d" % (q, sname, k), "`%s` on %s abandoned after %d pulls: %s %s" % (
                         q, sname, k, crash.crash[0], crash.crash[1][-700:]), {"part": "abandon", "q": q, "s": sname, "k": k, "inputs": extra["inputs"]}))
@@ -134,9 +135,69 @@ def outlive_cases():
     return cases
 
 
+FAILX = "(7, 8 drop drop drop drop)"      # on the input [5 1]: yields once, then the next pull fails hard (stack underflow)
+
+
+def failure_programs():
+    """A hard run-time failure after one result inside every kind of sub-expression context."""
+    X = FAILX
+    ctxs = ["if %s then 1 else 2", "if 1 then %s else 2", "if !() then 1 else %s", "(%s, 9)", "(9, %s)", "(%s || 9)", "(!() || %s)", "[%s]", "?(%s)", "!(%s !())",
+            "let A := %s; A", "(%s ?(9 ?lt))*", "(%s ?(9 ?lt))+", '"%%( %s %%)"', '"%%( 1 %%)%%( %s %%)"', "{%s} apply", "(%s == 7)", "(7 == %s)", "(|A| %s)", "[|A| %s]",
+            "?(|A| %s)", "%s [1, 2] elem", "[1, 2] elem %s", "%s (1 add, 2 add)", "(%s)?", "let F := {%s}; F F"]
+    out = [c % X for c in ctxs]
+    # nested twice
+    inner = ["if %s then 1 else 2" % X, "[%s]" % X, "(%s, 9)" % X, "(%s || 9)" % X, "?(%s)" % X, "let A := %s; A" % X]
+    for c in ctxs[:12]:
+        for i in inner:
+            out.append(c % ("(" + i + ")"))
+    return out
+
+
+def failure_cmds(q, extra_pulls):
+    cmds = ["allocs", "qparse id=q q=" + drv.hx(q), "exec id=r q=q s=s1"] + ["pull id=r"] * 6 + ["pull id=r"] * extra_pulls + ["rdestroy id=r", "qdestroy id=q", "allocs"]
+    return cmds
+
+
+def _failure_worker(d, chunk, extra):
+    out = {"cases": 0, "steps": 0, "bad": [], "candidates": [], "errors_seen": 0}
+    d.cmd("mkstack id=s1 p=" + drv.hx("5 1"))
+    for q in chunk:
+        for extra_pulls in (0, 3):
+            cmds = failure_cmds(q, extra_pulls)
+            warm = d.batch(cmds)
+            crash = next((r for r in warm if r.crash), None)
+            rs = warm if crash else d.batch(cmds)
+            out["cases"] += 1
+            out["steps"] += len(cmds)
+            crash = crash or next((r for r in rs if r.crash), None)
+            if crash:
+                out["bad"].append(("failure:%s|%d" % (q, extra_pulls), "`%s` fails at run time inside a sub-expression, then %s: %s %s" % (
+                    q, "is destroyed" if not extra_pulls else "is pulled %d more times and destroyed" % extra_pulls, crash.crash[0], crash.crash[1][-600:]),
+                    {"part": "failure", "q": q, "extra": extra_pulls}))
+                d.cmd("mkstack id=s1 p=" + drv.hx("5 1"))
+                continue
+            if any(l.startswith("e ") for r in rs for l in r.lines):
+                out["errors_seen"] += 1
+            if allocs_delta(rs):
+                out["candidates"].append((q, extra_pulls))
+    return out
+
+
 def replay(case):
     ctx = common.Ctx("C13", "quick")
     b = ctx.bin("zwdrv")
+    if case["part"] == "failure":
+        setup = ["mkstack id=s1 p=" + drv.hx("5 1")]
+        cmds = failure_cmds(case["q"], case["extra"])
+        if case.get("leak"):
+            return lsan_confirm(b, "core", cmds, setup)[0]
+        d = drv.Drv(b, "core")
+        try:
+            for c in setup:
+                d.cmd(c)
+            return any(r.crash for r in d.batch(cmds))
+        finally:
+            d.close()
     if case["part"] == "abandon":
         setup = ["mkstack id=%s p=%s" % (s, drv.hx(p)) for s, p in case["inputs"].items()]
         cmds = abandon_cmds(case["q"], case["k"], case["s"])
@@ -208,6 +269,20 @@ def main(ctx):
                 q, sname, k, delta, leak_sites(rep), rep[:1500]), {"part": "abandon", "q": q, "s": sname, "k": k, "inputs": inputs, "leak": True})
         else:
             ctx.count("abandon_candidates_not_confirmed_by_lsan")
+    # ---------------- (1b) a hard run-time failure inside every kind of sub-expression context
+    fcands = []
+    for r in common.pmap(ctx, _failure_worker, common.chunks(failure_programs(), 6), b, "core", timeout=60):
+        ctx.count("failure_cases", r["cases"])
+        ctx.count("failure_cases_where_the_error_surfaced", r["errors_seen"])
+        ctx.count("api_steps", r["steps"])
+        for key, what, case in r["bad"]:
+            ctx.violation(key, what, case)
+        fcands += r["candidates"]
+    for q, extra_pulls in fcands[:40]:
+        leaked, rep = lsan_confirm(b, "core", failure_cmds(q, extra_pulls), ["mkstack id=s1 p=" + drv.hx("5 1")])
+        if leaked:
+            ctx.violation("leak:failure:%s|%d" % (q, extra_pulls), "`%s` failing at run time inside a sub-expression leaks: allocated at %s\n%s" % (q, leak_sites(rep), rep[:1500]),
+                          {"part": "failure", "q": q, "extra": extra_pulls, "leak": True})
     # ---------------- (2) rejected queries
     tasks = []
     nall, ncore = len(c14.ALL_TOKENS), len(c14.CORE_TOKENS)
@@ -262,7 +337,7 @@ def main(ctx):
                 ctx.violation("leak:outlive:" + name, "value outliving its query (%s) leaks: %s\n%s" % (name, leak_sites(rep), rep[:1200]), {"part": "outlive", "name": name})
     ctx.sample({"case": "exec `((1 add, 2 add) ?(6 ?lt))*` on [5 1], pull 2 of 5, destroy result, destroy query", "oracle": "no sanitizer/hook report, live heap bytes unchanged"})
     ctx.sample({"case": "parse `\"%( [`", "oracle": "rejected; live heap bytes unchanged (else LSan in a fresh process decides)"})
-    n = ctx.counts.get("abandon_cases", 0) + ctx.counts.get("texts", 0) + ctx.counts.get("outlive_cases", 0)
+    n = ctx.counts.get("abandon_cases", 0) + ctx.counts.get("failure_cases", 0) + ctx.counts.get("texts", 0) + ctx.counts.get("outlive_cases", 0)
     cov = {
         "states": n,
         "transitions": ctx.counts.get("api_steps", 0) + ctx.counts.get("texts", 0),
@@ -271,7 +346,7 @@ def main(ctx):
         "distinct_nontrivial": n,
         "rule": "state = (program, input, number of pulls before abandonment) or one rejected query text or one outliving-value scenario, each executed "
                 "under ASan+UBSan+asserts+scon life-cycle hook with exact live-heap accounting; LSan in a fresh process confirms every non-zero delta",
-        "bounds": {"abandonment": "k = 0..n+2 pulls for %d programs" % len(plan), "rejected_texts": "token strings up to length %d (full alphabet) / %d (core alphabet), literals, unterminated forms" % (3 if thorough else 2, 4 if thorough else 3)},
+        "bounds": {"abandonment": "k = 0..n+2 pulls for %d programs" % len(plan), "runtime_failures": "%d programs: a hard failure after one result inside each of 26 sub-expression contexts and 72 two-level nestings, destroyed at once or pulled 3 more times first" % len(failure_programs()), "rejected_texts": "token strings up to length %d (full alphabet) / %d (core alphabet), literals, unterminated forms" % (3 if thorough else 2, 4 if thorough else 3)},
         "message_classes_with_delta": {k: len(v) for k, v in classes.items()},
     }
     return ctx.finish("model_checking", cov, [
